@@ -535,7 +535,13 @@ def canon_writer(eng, st, toks, prefix="self.*"):
                 pv = int_prov(eng, d[1])
                 if pv[0] == "sym" and pv[1] not in _divdefs(st):
                     flush()
-                    items.append(("enum", d[2], _strip(pv[1][:-2], prefix)) if pv[1].endswith("#v") else ("int", d[2], _strip(pv[1], prefix)))
+                    sb = _sym_bits(eng, pv[1])
+                    if sb is not None and sb % 8 == 0 and 0 < sb < 8 * d[2] and not pv[1].endswith("#v"):
+                        # the octets of a narrower field widened first (`u16::from(x).to_be_bytes()` for a u8 x): zeros, then x
+                        items.append(("zero", d[2] - sb // 8))
+                        items.append(("int", sb // 8, _strip(pv[1], prefix)))
+                    else:
+                        items.append(("enum", d[2], _strip(pv[1][:-2], prefix)) if pv[1].endswith("#v") else ("int", d[2], _strip(pv[1], prefix)))
                 elif pv[0] == "const":
                     flush()
                     items.append(("const", d[2], pv[1]))
